@@ -9,7 +9,11 @@
      the unmodified source with its DEBUG prints tapped) against the extracted model driven by
      the observed residual / step norms; number of loop-body entries against limit + 1;
    * NullGuards: which form of _vnacal_new_solve_update_s_matrices the tree has (sanitizer run
-     of a single-reflect + unknown-parameter calibration).
+     of a single-reflect + unknown-parameter calibration);
+   * DispatchModel: which solver runs for TRL-shaped inputs (observed through the solver taps)
+     against the extracted classify_standard / is_trl / dispatch; writeback_exact through
+     re-solve histories (same handles, several vnacal_new_t, grids of equal and different length);
+     the starting vector of the iteration at every frequency against the caller's guesses.
 3. API-level scenarios with an independent physical measurement oracle (lib/selfcal_gen.py):
    (a) 2-port TRL on T8/U8/TE10/UE10, (b) over-determined systems with 1..3 unknown / correlated
    parameters on every type, tolerances 1e-4..1e-12, (c) iteration limits, (d) with and without
@@ -27,7 +31,8 @@ import vplib
 import selfcal_gen as G
 
 VFILES = ["SelfCal/TrlModel.v", "SelfCal/TrlProofs.v", "SelfCal/TrlQI.v", "SelfCal/AutoLoop.v",
-          "SelfCal/AutoProofs.v", "SelfCal/AutoReplay.v", "SelfCal/NullGuards.v", "Properties_C02.v"]
+          "SelfCal/AutoProofs.v", "SelfCal/AutoReplay.v", "SelfCal/NullGuards.v", "SelfCal/DispatchModel.v",
+          "SelfCal/DispatchProofs.v", "Properties_C02.v"]
 
 RADIUS = 0.1            # stated radius of the guesses (relative to max(|truth|, 0.2))
 TOLS = [1e-4, 1e-6, 1e-8, 1e-10, 1e-12]
@@ -89,6 +94,10 @@ def check_common(rec, sc, r, where):
         rec.add({"kind": "harness", "where": where}, "harness produced no solve record: %s" % r.get("err"), sc, r)
         return None
     s = r["solve"][0]
+    for sx in r["solve"]:
+        if sx["rc"] == 0 and sx["cb"] > 0:
+            rec.add({"kind": "error_discipline", "where": "error reported, success returned"},
+                    "vnacal_new_solve reported an error (%s) but returned 0 (%s)" % (sx.get("msg"), where), sc, r)
     if s["rc"] != 0:
         # documented failure discipline: -1, EDOM, one VNAERR_MATH report
         if s["rc"] != -1 or s["errno"] != "EDOM" or s["cat"] != "MATH" or s["cb"] < 1:
@@ -508,6 +517,203 @@ def part_limits(ctx, rec, exe, ncases):
     ctx.extra["limits"] = {"runs": len(scs), "convergence_failures": fails_small}
 
 
+
+# ------------------------------------------------------------------------------------------ write-back histories
+def part_history(ctx, rec, exe, ncases):
+    """writeback_exact, tied: after every successful solve get_parameter_value h f_i is the value
+    solved in THAT solve at every calibration frequency of that solve (same handles re-solved on
+    grids of equal and of different length)"""
+    scs = []
+    for k in range(ncases):
+        typ = G.TYPES[k % len(G.TYPES)]
+        n = 1 if k % 3 == 0 else 2
+        scs.append(G.build_resolve_history(ctx.rng, "hist_%d_%s_%d" % (k, typ, n), typ, n))
+    res = G.run_batch(ctx, exe, scs)
+    ok = True
+    detail = ""
+    for sc in scs:
+        r = res.get(sc.sid)
+        if r is None:
+            continue
+        s = check_common(rec, sc, r, "re-solve history " + sc.typ)
+        ctx.count(("history", sc.sid))
+        if s is None:
+            continue
+        for k, (grid, truth) in enumerate(sc.history):
+            if k >= len(r["solve"]) or r["solve"][k]["rc"] != 0:
+                rec.add({"kind": "lm_failed", "type": sc.typ, "why": "history step %d" % k},
+                        "solve %d of a re-solve history failed: %s" % (k, r["solve"][k].get("msg") if k < len(r["solve"]) else "missing"), sc, r)
+                ok = False
+                break
+            for nm in ("u", "c"):
+                got = r["params"].get(nm, [])
+                e = None
+                if len(got) > k and len(got[k]) == len(truth[nm]):
+                    e = G.max_err(got[k], truth[nm])
+                ctx.traces_validated += 1
+                if e is None or not (e <= 1e-6):
+                    ok = False
+                    if not detail:
+                        detail = ("%s: after solve %d on grid %s, get_parameter_value(%s) at that grid = %s, solved/true %s"
+                                  % (sc.sid, k, grid, nm, got[k] if len(got) > k else None, truth[nm]))
+                    rec.add({"kind": "writeback", "param": nm, "class": "re-solved handle: value at the solve's own frequencies"},
+                            "after solve %d (grid %s, previous grid %s) vnacal_get_parameter_value(%s) at the calibration "
+                            "frequencies returns %s, expected %s"
+                            % (k, grid, sc.history[k - 1][0] if k else None, nm,
+                               got[k] if len(got) > k else None, truth[nm]), sc, r)
+    ctx.obligation("tie:writeback_exact(re-solve histories)", ok, detail)
+    return ok
+
+
+# ------------------------------------------------------------------------------------------ several frequencies
+def initial_p_blocks(out):
+    """per solve_auto call: the parameter vector printed before the first pass"""
+    blocks, cur, waiting = [], None, True
+    for line in out.splitlines():
+        if line == "wb pstart":
+            if waiting:
+                cur = []
+                blocks.append(cur)
+                waiting = False
+                collecting = True
+            else:
+                cur = None
+            continue
+        if line.startswith("wb p ") and cur is not None:
+            v = line.split()
+            cur.append(complex(float(v[2]), float(v[3])))
+            continue
+        if line.startswith("wb ev converged") or line.startswith("wb endsolve"):
+            waiting = True
+            cur = None
+        elif line.startswith("wb qr"):
+            cur = None
+    return blocks
+
+
+def part_multifreq(ctx, rec, exe, wb, ncases):
+    """LM path with several frequencies and unknowns that move by more than the basin between
+    adjacent points; the caller's (vector) guess is valid at every frequency.  Tie: the starting
+    vector of every frequency is the parameter's guess at that frequency."""
+    scs = []
+    for k in range(ncases):
+        typ = G.EIGHT[k % 4]
+        sc = G.build_unknown_line_multifreq(ctx.rng, "mfline_%d_%s" % (k, typ), typ, nf=ctx.rng.choice([4, 6, 8]),
+                                            step_deg=ctx.rng.choice([100.0, 108.0, 125.0]))
+        scs.append(sc)
+    for k in range(ncases):
+        typ = ctx.rng.choice(G.TYPES)
+        n = ctx.rng.choice([1, 2])
+        sc = G.build_general(ctx.rng, "mfgen_%d_%s" % (k, typ), typ, n, 3, ctx.rng.choice([1, 2]), 0, radius=0.05)
+        scs.append(sc)
+    ok, detail = True, ""
+    for sc in scs:
+        sc.cmd("wb 0 1 0")
+        sc.solve()
+        sc.getparams()
+        G.add_dut(ctx.rng, sc)
+        rc, out, err = vplib.sh([wb], input=sc.text(), timeout=120, env=G.run_env(ctx))
+        res, _ = G.parse_output(out)
+        r = res.get(sc.sid) or {"ended": False, "solve": [], "params": {}, "apply": [], "S": [], "ops": [], "err": None}
+        if rc != 0:
+            r["crash"] = ({"kind": "timeout", "error": "timeout", "function": None} if rc in (124, -14) else
+                          (vplib.asan_signature(err) or {"kind": "fault", "error": "exit %d" % rc, "function": None}))
+            r["stderr"] = err[-2000:]
+        s = check_common(rec, sc, r, "multi-frequency LM " + sc.typ)
+        ctx.count(("multifreq", sc.sid))
+        if s is None:
+            continue
+        # starting vectors
+        blocks = initial_p_blocks(out)
+        for f, blk in enumerate(blocks[:sc.nf]):
+            want = sorted([sc.guess[nm][f] for nm in sc.guess], key=lambda z: (round(z.real, 9), round(z.imag, 9)))
+            got = sorted(blk, key=lambda z: (round(z.real, 9), round(z.imag, 9)))
+            ctx.traces_validated += 1
+            if len(got) != len(want) or any(abs(a - b) > 1e-9 for a, b in zip(got, want)):
+                ok = False
+                if not detail:
+                    detail = "%s frequency %d: iteration starts from %s, the caller's guesses are %s" % (sc.sid, f, got, want)
+                rec.add({"kind": "disagreement", "op": "_vnacal_new_solve_auto", "class": "starting vector is not the caller's guess"},
+                        "frequency index %d: the Levenberg-Marquardt iteration starts from %s although the unknown "
+                        "parameters' guesses at that frequency are %s" % (f, got, want), sc, r)
+                break
+        if s["rc"] != 0:
+            if sc.meta.get("family") == "unknown_line_multifreq":
+                rec.add({"kind": "lm_failed", "type": sc.typ, "why": "long line"},
+                        "unknown long line (guess within 5%% at every frequency) not solved: %s" % s.get("msg"), sc, r)
+            continue
+        pe, de = G.param_error(sc, r), G.dut_error(sc, r)
+        pb, db = bounds(1e-6)
+        if pe is None or pe > pb:
+            rec.add({"kind": "lm_param_error", "type": sc.typ, "weighted": False, "family": sc.meta.get("family", "general nf=3")},
+                    "several frequencies: solved parameters differ from the truth by %s (bound %.3g) although every guess is "
+                    "within its radius" % (pe, pb), sc, r)
+        if de is None or de > db:
+            rec.add({"kind": "dut_error", "where": "multifreq", "type": sc.typ},
+                    "several frequencies: calibration does not correct a device: %s" % de, sc, r)
+    ctx.obligation("tie:initial_parameter_vector_is_the_guess", ok, detail)
+    return ok
+
+
+# ------------------------------------------------------------------------------------------ dispatch
+def part_dispatch(ctx, rec, wb, drv, reps):
+    """TRL-shaped inputs: which solver runs (observed through the solver taps) vs the extracted
+    DispatchModel.dispatch; results against the truth on either path"""
+    scs = []
+    for rep in range(reps):
+        for typ in G.EIGHT + (["T16", "E12"] if rep == 0 else []):
+            for v in G.TRL_VARIANTS:
+                scs.append(G.build_trl_shaped(ctx.rng, "shape_%d_%s_%s" % (rep, typ, v), typ, v))
+    lines, cases = [], []
+    ok, detail = True, ""
+    for sc in scs:
+        sc.cmd("wb 0 1 0")
+        sc.solve()
+        sc.getparams()
+        G.add_dut(ctx.rng, sc)
+        rc, out, err = vplib.sh([wb], input=sc.text(), timeout=120, env=G.run_env(ctx))
+        res, _ = G.parse_output(out)
+        r = res.get(sc.sid) or {"ended": False, "solve": [], "params": {}, "apply": [], "S": [], "ops": [], "err": None}
+        if rc != 0:
+            r["crash"] = ({"kind": "timeout", "error": "timeout", "function": None} if rc in (124, -14) else
+                          (vplib.asan_signature(err) or {"kind": "fault", "error": "exit %d" % rc, "function": None}))
+            r["stderr"] = err[-2000:]
+        s = check_common(rec, sc, r, "TRL-shaped " + sc.meta["variant"])
+        ctx.count(("dispatch", sc.sid))
+        if s is None:
+            continue
+        path = "auto" if "wb qr " in out else ("simple" if ("wb qrsolve" in out or "wb mldivide" in out) else "trl")
+        lines.append("dispatch %s 2 2 %s %s %d %d %s" % (sc.typ, s["unk"], s["corr"], 1 if sc.meta["m_error"] else 0,
+                                                         len(sc.std_cells), " ".join(" ".join(c) for c in sc.std_cells)))
+        cases.append((sc, r, path))
+        if s["rc"] == 0 and sc.meta["variant"] != "reflect_two_unknowns":       # that one is not identifiable
+            pe, de = G.param_error(sc, r), G.dut_error(sc, r)
+            pb, db = bounds(1e-6)
+            if pe is None or pe > pb or de is None or de > db:
+                rec.add({"kind": "lm_param_error", "type": sc.typ, "weighted": sc.meta["m_error"], "family": "TRL-shaped " + sc.meta["variant"]},
+                        "TRL-shaped calibration (%s, solver path %s): parameters off by %s, device off by %s"
+                        % (sc.meta["variant"], path, pe, de), sc, r)
+        elif s["rc"] != 0 and sc.meta["variant"] != "reflect_two_unknowns":
+            rec.add({"kind": "lm_failed", "type": sc.typ, "why": "TRL-shaped " + sc.meta["variant"]},
+                    "TRL-shaped calibration (%s) not solved: %s" % (sc.meta["variant"], s.get("msg")), sc, r)
+    q = None
+    rc, mout, merr = vplib.sh([drv], input="\n".join(lines) + "\n", timeout=300)
+    mlines = [x.split()[1] for x in mout.splitlines() if x.startswith("dispatch ")]
+    if rc != 0 or len(mlines) != len(cases):
+        ok, detail = False, "model driver failed: %s" % merr[-200:]
+    else:
+        for want, (sc, r, path) in zip(mlines, cases):
+            ctx.traces_validated += 1
+            if want != path:
+                ok = False
+                if not detail:
+                    detail = "%s (%s): solver path %s, model %s; standards %s" % (sc.sid, sc.meta["variant"], path, want, sc.std_cells)
+                rec.add({"kind": "disagreement", "op": "_vnacal_new_solve_is_trl", "class": "solver path"},
+                        "standards %s (%s): vnacal_new_solve used the %s solver, the model of classify_standard / is_trl says %s"
+                        % (sc.std_cells, sc.meta["variant"], path, want), sc, r)
+    ctx.obligation("tie:solver_dispatch_vs_DispatchModel", ok, detail)
+    return ok
+
 # ------------------------------------------------------------------------------------------ directed
 def part_directed(ctx, rec, exe):
     rng = ctx.rng
@@ -584,7 +790,16 @@ def run(ctx):
     auto_ok = part_auto_tie(ctx, rec, wb, drv, 30 if quick else 300)
     ctx.log("directed")
     part_directed(ctx, rec, exe)
+    ctx.log("histories")
+    hist_ok = part_history(ctx, rec, exe, 8 if quick else 48)
+    ctx.log("several frequencies")
+    mf_ok = part_multifreq(ctx, rec, exe, wb, 8 if quick else 60)
+    ctx.log("dispatch")
+    disp_ok = part_dispatch(ctx, rec, wb, drv, 1 if quick else 6)
     ctx.log("done")
+    for name, okx in (("tie:writeback_exact", hist_ok), ("tie:initial_parameter_vector", mf_ok), ("tie:solver_dispatch", disp_ok)):
+        if not okx and not ctx.violations:
+            ctx.unproved(name, "correspondence failed", "scenarios of this run")
 
     # support: convergence rate of the unweighted iteration from the stated radius
     if st_u["runs"]:
